@@ -33,6 +33,7 @@ class KCheck:
     pins: list = field(default_factory=list)        # concrete input vectors for translator validation
     engine: str = "E2-ksym"
     kind: str = "ksym"
+    width: int = 128                                # bit-width of symbolic ints (width obligations guard it)
 
 
 def load_known():
@@ -57,6 +58,8 @@ def _ksym_job(args):
     mod = importlib.import_module(modname)
     chk = next(c for c in mod.checks("thorough") if c.name == cname)
     from vf.ksym.harness import explore
+    from vf.ksym import core as _core
+    _core.set_width(chk.width)
     params = chk.parts[pidx]
     try:
         r = explore(chk.fn, params=params, known=known, max_decisions=chk.max_decisions,
